@@ -333,7 +333,7 @@ fn main() {
             run_ops(&model, cap, &ops, &mut Stats::default())
         },
     );
-    let cases = h.tier.pick(60_000, 2_000_000);
+    let cases = h.tier.pick(150_000, 2_000_000);
     h.check(
         "c09.random",
         "proptest tapes -> 1-40 operations grouped into messages of 1-3 units (several faults and queue queries in one message, relative NEXT?/COUNt? after SYST:ERR:NEXT?, handler errors with generated numbers incl. i16 extremes and texts containing double quotes), random capacity; same oracle; non-trivial = overflow read back, or a queue query following another unit inside one message",
